@@ -270,6 +270,12 @@ def generate_service_query(
     question_history = zc.question_history
     cache = zc.cache
     for type_ in types_:
+        if not _name_is_encodable(type_):
+            # The owner name of a pointer that was received with invalid UTF-8
+            # in front of one of our types: it cannot be written again, so the
+            # record cannot be asked for (asking would raise out of the timer
+            # of the query scheduler and end all refreshes of this browser)
+            continue
         question = DNSQuestion(type_, _TYPE_PTR, _CLASS_IN)
         question.unicast = qu_question
         known_answers = {
